@@ -2,7 +2,8 @@
 import json, sys
 import glob, os
 class registry: pass
-registry.CLAIMS = {os.path.basename(f)[:-5]: json.load(open(f)) for f in sorted(glob.glob("/verif/checks/claims/C*.json"))}
+ENABLED = set(open("/verif/checks/enabled.txt").read().split())
+registry.CLAIMS = {os.path.basename(f)[:-5]: json.load(open(f)) for f in sorted(glob.glob("/verif/checks/claims/C*.json")) if os.path.basename(f)[:-5] in ENABLED}
 registry.REASON_NOT_YET = "check not built yet in this session; planned (see DESIGN.md §6) — not claimed until its proof and tie run"
 registry.REASONS = json.load(open("/verif/checks/claims/not_applicable.json")) if os.path.exists("/verif/checks/claims/not_applicable.json") else {}
 props = [json.loads(l)["id"] for l in open("/verif/properties.jsonl")]
